@@ -2,6 +2,7 @@ import BronVerif.Drive.Common
 import BronVerif.Model.Hash.Keccak
 import BronVerif.Model.Hash.Sha2
 import BronVerif.Model.Hash.Blake2b
+import BronVerif.Model.Transcript
 /-! Driver handlers for C19. -/
 namespace BronVerif.Drive.C19
 open BronVerif BronVerif.Drive BronVerif.Hash
@@ -37,12 +38,42 @@ def hashModel (alg : String) (params : List String) : Option ByteArray :=
       hkdfExpand sha3_256 136 (hkdfExtract sha3_256 136 (← hexToBytes? salt) (← hexToBytes? ikm)) (← hexToBytes? info) (← n.toNat?)
   | _, _ => none
 
+/-! ### transcript scripts -/
+
+def hexToList? (s : String) : Option (List UInt8) := (hexToBytes? s).map (·.toList)
+
+def parseMsgs? (s : String) : Option (List (List UInt8)) :=
+  if s == "." then some [] else (s.splitOn "/").mapM hexToList?
+
+def parseCmd? (s : String) : Option Transcript.Cmd :=
+  match s.splitOn ":" with
+  | ["n", name] => do some (.new (← hexToList? name))
+  | ["d", i, tag] => do some (.domSep (← i.toNat?) (← hexToList? tag))
+  | ["a", i, label, ms] => do some (.append (← i.toNat?) (← hexToList? label) (← parseMsgs? ms))
+  | ["x", i, label, n] => do some (.extract (← i.toNat?) (← hexToList? label) (← n.toNat?))
+  | ["c", i] => do some (.clone (← i.toNat?))
+  | _ => none
+
+def renderEvent : Transcript.Event → String
+  | none => "err"
+  | some bs => bytesToHex (ByteArray.mk bs.toArray)
+
+/-- `tr <script>`: run the script on the transcript machine with the cSHAKE256 model -/
+def trModel (script : String) : Option String := do
+  let cmds ← (script.splitOn ";").mapM parseCmd?
+  let (_, evs) := Transcript.run Transcript.cshakeH [] cmds
+  some (joinComma (evs.map renderEvent))
+
 def handle (op : String) (args : List String) (rhs : String) : Verdict :=
   match op, args with
   | "hash", alg :: params =>
     match hashModel alg params with
     | some d => spec ("hash." ++ alg) (bytesToHex d) rhs
     | none => .unsupported ("C19 hash " ++ alg)
+  | "tr", [script] =>
+    match trModel script with
+    | some m => spec "transcript.output" m rhs
+    | none => .unsupported "C19 tr unparsable-script"
   | _, _ => .unsupported ("C19 op " ++ op)
 
 end BronVerif.Drive.C19
